@@ -500,7 +500,7 @@ func l7(n int) [][]dump.File {
 			[]dump.File{scale.Counts(n)}, []dump.File{scale.ManyLeaves(n)}, []dump.File{la}, []dump.File{scale.UsesInOneNode(n)})
 	}
 	if n <= 64 {
-		out = append(out, scale.AugmentLadder(n), scale.EqualNames(n))
+		out = append(out, scale.AugmentLadder(n), scale.EqualNames(n), scale.ImportLadder(n, true), scale.ImportLadder(n, false))
 	}
 	for _, k := range []int{1, 9, 40} {
 		out = append(out, []dump.File{scale.GroupingChainErrors(n, k)})
